@@ -78,6 +78,7 @@ class World:
         self.ops = []            # global id -> Operator
         self.first = []
         self.gid = {}            # Operator -> global id
+        self._segs = segs
         for k, (prio, dag) in enumerate(pipes):
             p = Pipeline(f'p{k + 1}', PRIO[prio])
             self.first.append(len(self.ops))
@@ -90,6 +91,10 @@ class World:
                 for s in (segs[k][i] if segs else [dict(baseline_cpu_seconds=1, storage_read_gb=1)]):
                     op.add_segment(Segment(**s))
             self.pipes.append(p)
+
+    def segs_of(self, gid):
+        k = max(i for i, f in enumerate(self.first) if f <= gid)
+        return self._segs[k][gid - self.first[k]]
 
     def states(self):
         return [OST_IDX[op.state()] for op in self.ops]
